@@ -31,6 +31,7 @@ import (
 	"path/filepath"
 	"regexp"
 	"sort"
+	"strconv"
 	"strings"
 	"sync"
 	"syscall"
@@ -84,6 +85,25 @@ type sshSim struct {
 	fault   string
 	pw      string
 	silent  bool
+	// faults of the read just done
+	hangAfter string // write this, then fall silent for good (the answer stays incomplete)
+	garbled   bool   // echo something else than the line received
+	special   string // "noprompt": answer without prompt, then silence; "banner": IOS reload banner, then a foreign prompt
+}
+
+// hang: what was written since the last read is an incomplete answer (marker P), nothing follows.
+func (s *sshSim) hang(text string) {
+	s.write(text)
+	fmt.Fprintf(s.ev, "fault %s: device hangs\n", s.fault)
+	fmt.Fprintf(s.tl, "P\n")
+	s.silent = true
+}
+
+func garbleEcho(line string) string {
+	if line == "" {
+		return "?"
+	}
+	return strings.ToUpper(line[:1]) + line[1:] + " ^"
 }
 
 func (s *sshSim) write(text string) {
@@ -115,6 +135,24 @@ func (s *sshSim) readLine(isPassword bool) (string, bool) {
 		return "", false
 	}
 	line = strings.TrimSuffix(line, "\n")
+	if s.reads == s.faultAt {
+		switch s.fault {
+		case "echohang":
+			// the device echoes what it received — also at a password prompt — and then hangs
+			s.hangAfter = line + "\n"
+		case "garble":
+			// the device echoes something else than it received (commands only)
+			if !isPassword {
+				s.garbled = true
+			}
+		case "noprompt":
+			s.special = s.fault
+		}
+	}
+	if s.fault == "banner" && s.faultAt >= 0 && s.reads >= s.faultAt && strings.Contains(line, "ip route ") {
+		// (change phase only: the first change command at or behind the position)
+		s.special, s.faultAt = "banner", -1
+	}
 	if line == s.pw && s.pw != "" {
 		fmt.Fprintf(s.tl, "R PWOK\n")
 	} else {
@@ -154,6 +192,16 @@ func (s *sshSim) sendLine(text string) bool {
 		line, ok := s.readLine(pwd)
 		if !ok {
 			return false
+		}
+		if s.hangAfter != "" {
+			s.hang(s.hangAfter)
+			s.hangAfter = ""
+			continue
+		}
+		if s.garbled && !pwd {
+			s.garbled = false
+			s.write(garbleEcho(line) + "\n")
+			continue
 		}
 		if pwd {
 			if s.fault == "wrongpass" || line != s.pw {
@@ -206,6 +254,12 @@ func sshSimMain(args []string) int {
 		}
 	}
 	preamble = strings.TrimSuffix(preamble, "\n")
+	if s.fault == "nologin" {
+		// the connection stands, but no login prompt ever comes
+		s.hang("Connection established.\nTo escape to local shell, press 'Ctrl+Alt+]'.\n")
+		io.Copy(io.Discard, s.in)
+		return 0
+	}
 	if !s.sendLine(preamble) {
 		return 0
 	}
@@ -215,7 +269,24 @@ func sshSimMain(args []string) int {
 			return 0
 		}
 		lookup := strings.TrimPrefix(cmd, "do ")
-		s.write(cmd + "\n")
+		switch {
+		case s.hangAfter != "":
+			s.hang(s.hangAfter)
+			s.hangAfter = ""
+		case s.garbled:
+			s.garbled = false
+			s.write(garbleEcho(cmd) + "\n")
+		case s.special == "banner":
+			// the reload banner is all that comes before a prompt; echo and answer follow, but the prompt
+			// behind them is not the router's
+			s.special = ""
+			s.write("\n\n\n\x07***\n*** --- SHUTDOWN in 0:05:00 ---\n***\n" + device + "#")
+			time.Sleep(150 * time.Millisecond)
+			s.hang(cmd + "\n% Unknown state\nother#")
+			continue
+		default:
+			s.write(cmd + "\n")
+		}
 		if lookup == "exit" {
 			return 0
 		}
@@ -228,6 +299,11 @@ func sshSimMain(args []string) int {
 			if !s.sendLine(out) {
 				return 0
 			}
+		}
+		if s.special == "noprompt" {
+			s.special = ""
+			s.hang("")
+			continue
 		}
 		if !noPrompt {
 			s.write(device + "#")
@@ -353,11 +429,12 @@ type simReq struct {
 }
 
 type httpSim struct {
-	srv     *httptest.Server
-	mu      sync.Mutex
-	reqs    []simReq
-	retries int
-	reply   func(i int, r *http.Request) (c17Reply, map[string]string)
+	srv      *httptest.Server
+	mu       sync.Mutex
+	reqs     []simReq
+	retries  int
+	lastBody string // body of the request being answered
+	reply    func(i int, r *http.Request) (c17Reply, map[string]string)
 }
 
 func newHTTPSim(reply func(i int, r *http.Request) (c17Reply, map[string]string)) *httpSim {
@@ -382,6 +459,7 @@ func newHTTPSim(reply func(i int, r *http.Request) (c17Reply, map[string]string)
 		if c, err := r.Cookie("JSESSIONID"); err == nil {
 			q.Cookie = c.Value
 		}
+		s.lastBody = string(body)
 		rep, hdr := s.reply(i, r)
 		q.Reply = rep
 		s.reqs = append(s.reqs, q)
@@ -530,6 +608,79 @@ func statusFault(c *runCase, i int) (c17Reply, bool) {
 	return c17Reply{}, false
 }
 
+// quoteFault: fault "quote:WHAT:HOW" — the device rejects the request at FaultAt with a text that QUOTES the
+// request.  WHAT = cmd (the command without credentials: must stay clean) | url (the whole request as the
+// device saw it, credentials included: the device reveals the secret — outside the guarantee, but only
+// inside the quotation).  HOW = status (HTTP 400, the text is the body) | doc (status 200, error document)
+// | msg (PAN-OS: message of the commit answer) | job (PAN-OS: result of the job status).
+var reQuoted = regexp.MustCompile(`(?s)QUOTED\[.*?\]QUOTED`)
+
+func quoteFault(c *runCase, i int, r *http.Request, form string) (c17Reply, bool) {
+	if !strings.HasPrefix(c.Fault, "quote:") {
+		return c17Reply{}, false
+	}
+	p := strings.Split(c.Fault, ":")
+	if len(p) != 3 {
+		return c17Reply{}, false
+	}
+	what, how := p[1], p[2]
+	q := r.URL.Query()
+	switch how {
+	case "msg":
+		if q.Get("type") != "commit" {
+			return c17Reply{}, false
+		}
+	case "job":
+		if !strings.Contains(q.Get("cmd"), "<jobs>") {
+			return c17Reply{}, false
+		}
+	default:
+		if i != c.FaultAt {
+			return c17Reply{}, false
+		}
+	}
+	text := ""
+	if c.Dev == "PAN-OS" {
+		if what == "url" {
+			text = r.RequestURI
+		} else {
+			var ks []string
+			for k := range q {
+				if k != "key" && k != "password" {
+					ks = append(ks, k)
+				}
+			}
+			sort.Strings(ks)
+			for _, k := range ks {
+				text += "&" + k + "=" + q.Get(k)
+			}
+		}
+	} else {
+		text = r.Method + " " + r.URL.Path
+		if what == "url" {
+			text = r.Method + " " + r.RequestURI + " form=" + form + " cookie=" + r.Header.Get("Cookie") + " token=" + r.Header.Get("x-xsrf-token")
+		}
+	}
+	quoted := "Invalid request QUOTED[" + text + "]QUOTED"
+	var xb bytes.Buffer
+	xml.EscapeText(&xb, []byte(quoted))
+	switch {
+	case how == "status":
+		return c17Reply{Kind: "status", A: "400", B: quoted + "\n"}, true
+	case c.Dev == "PAN-OS" && how == "doc":
+		return c17Reply{Kind: "fail", A: "<response status=\"error\" code=\"400\"><msg>" + xb.String() + "</msg></response>", B: "No success: " + quoted}, true
+	case c.Dev == "PAN-OS" && how == "msg":
+		return c17Reply{Kind: "fail", A: "<response status=\"success\" code=\"19\"><msg>" + xb.String() + "</msg></response>", B: "Unexpected message: " + quoted}, true
+	case c.Dev == "PAN-OS" && how == "job":
+		return c17Reply{Kind: "fail", A: "<response status=\"success\"><result><job><result>" + xb.String() + "</result></job></result></response>",
+			B: "Unexpected job result: " + strconv.Quote(quoted)}, true
+	case c.Dev == "NSX" && how == "doc":
+		jm, _ := json.Marshal(quoted)
+		return c17Reply{Kind: "fail", A: "{\"error_code\": 289, \"error_message\": " + string(jm) + "}", B: "got error message instead of results: " + quoted + " (289)"}, true
+	}
+	return c17Reply{}, false
+}
+
 var loginStatusCodes = []string{"401", "403", "404", "429", "500", "502", "503", "504"}
 
 const nsxInvalidMsg = "invalid character 'i' looking for beginning of value"
@@ -596,11 +747,29 @@ func execRun(tmp string, c *runCase, no int, scale int) *runOutcome {
 		cred = "other admin " + c.Pass + "\n"
 	case "badpattern":
 		cred = "[ admin " + c.Pass + "\n"
+	case "2fields":
+		// user name forgotten: the password is the second field
+		cred = "* " + c.Pass + "\n"
+	case "blankpass":
+		// a password with a blank makes four (or more) fields
+		h := len(c.Pass) / 2
+		cred = "* admin " + c.Pass[:h] + " " + c.Pass[h:] + "\n"
+	case "multi":
+		// comments, an entry for another device (bad line BEHIND the matching one is never read)
+		cred = "# credentials\n\nother* admin " + c.Pass + "X\n  router  " + user + "\t" + c.Pass + "  \n* admin " + c.Pass + " " + c.Pass + "\n"
+	case "badlater":
+		// the entry of another device comes first and is malformed
+		cred = "other admin " + c.Pass + " " + c.Pass + "\nrouter " + user + " " + c.Pass + "\n"
+	case "missing":
+		cred = ""
 	}
 	WriteFiles(work, map[string]string{
 		"credentials":      cred,
 		".netspoc-approve": "basedir = " + work + "\ncheckbanner = NetSPoC\nsystemuser = " + user + fmt.Sprintf("\ntimeout = %d\nlogin_timeout = %d\n", scale, scale),
 	})
+	if c.Cred == "missing" {
+		os.Remove(filepath.Join(work, "credentials"))
+	}
 	info := fmt.Sprintf("{\n \"model\": %q,\n \"name_list\": [ \"router\" ],\n \"ip_list\": [ \"10.1.13.33\" ]\n}\n", c.Dev)
 	netspoc := ""
 	out := &runOutcome{Files: map[string]string{}, noEcho: true}
@@ -662,6 +831,9 @@ func execRun(tmp string, c *runCase, no int, scale int) *runOutcome {
 			if r, ok := statusFault(c, i); ok {
 				rep = r
 			}
+			if qr, ok := quoteFault(c, i, r, ""); ok {
+				rep = qr
+			}
 			return rep, nil
 		})
 	case "NSX":
@@ -689,6 +861,11 @@ func execRun(tmp string, c *runCase, no int, scale int) *runOutcome {
 			}
 			if r, ok := statusFault(c, i); ok {
 				rep, hdr = r, nil
+			}
+			if i > 0 || !strings.HasSuffix(c.Fault, ":doc") {
+				if qr, ok := quoteFault(c, i, r, sim.lastBody); ok {
+					rep, hdr = qr, nil
+				}
 			}
 			return rep, hdr
 		})
@@ -952,6 +1129,25 @@ func (e *c17Env) scanRun(c *runCase, o *runOutcome) {
 			continue // the configuration holds the password by design
 		}
 		hay[rel] = content
+	}
+	if strings.HasPrefix(c.Fault, "quote:url:") {
+		// the device quoted the whole request, credentials included, in its error text: what stands INSIDE
+		// the quotation is device output that reveals the secret (outside the guarantee: the replies of the
+		// theorems do not depend on the secrets; reply_quoting_request_counterexample); everything else
+		// is judged as always
+		for rel, content := range hay {
+			stripped := reQuoted.ReplaceAllString(content, "QUOTED[]QUOTED")
+			if stripped != content {
+				for kind, secret := range secrets {
+					if _, found := findSecret(content, secret, c.user()); found {
+						if _, still := findSecret(stripped, secret, c.user()); !still {
+							e.res.Count("scan:device-reply-quotes-the-request(outside guarantee):" + kind + ":" + sinkOf(rel))
+						}
+					}
+				}
+				hay[rel] = stripped
+			}
+		}
 	}
 	names := make([]string, 0, len(hay))
 	for n := range hay {
@@ -1256,6 +1452,9 @@ func (e *c17Env) compareSSH(c *runCase, o *runOutcome) {
 			}
 		case line == "S":
 			pending = true
+		case line == "P":
+			// what was written since the last read is an incomplete answer; nothing follows
+			silent = true
 		}
 	}
 	if cur != "" || silent {
@@ -1482,6 +1681,14 @@ func (e *c17Env) judge(c *runCase, o *runOutcome) (leaks, tie *Result, reached b
 		if o.Retries > 0 {
 			tie.CountN("http:transparent-retries-of-dropped-requests", o.Retries)
 		}
+		// messages that embed raw device output or file/pattern names (coverage of the sink paths)
+		for _, m := range []string{"while waiting for login prompt", "while waiting for prompt", "Got unexpected echo in response to", "Missing prompt",
+			"Authentication failed", "Expected 3 fields in lines of", "Invalid pattern", "No matching entry found in", "Can't open", "got error message instead of results",
+			"No success:", "Unexpected message:", "Unexpected job result:", "status code:"} {
+			if strings.Contains(o.runlog(c)+o.Stderr, m) {
+				tie.Count("message:" + m)
+			}
+		}
 		tie.Count("run:" + c.Dev + ":" + c.Cmd)
 		tie.Count(fmt.Sprintf("run-status:%s:%d", c.Dev, o.Status))
 		if c.FaultAt >= 0 || c.Fault != "" {
@@ -1692,6 +1899,28 @@ func (e *c17Env) wholeRuns() {
 			}
 		}
 	}
+	// error texts of the device that quote the request — without credentials (must stay clean) and as a
+	// whole (the device reveals the secret: only inside the quotation)
+	for di, dev := range []string{"NSX", "PAN-OS"} {
+		nreq := map[string]int{"PAN-OS": 8, "NSX": 5}[dev]
+		for wi, what := range []string{"cmd", "url"} {
+			for hi, how := range []string{"status", "doc"} {
+				for pos := 0; pos < nreq; pos++ {
+					if !thorough && pos > 1 && (pos+wi+hi+di)%3 != 0 {
+						continue
+					}
+					run(&runCase{Dev: dev, Cmd: runCmds[(pos+wi+hi)%len(runCmds)], FaultAt: pos, Fault: "quote:" + what + ":" + how, Variant: pos})
+				}
+			}
+			for _, how := range []string{"msg", "job"} {
+				for _, cmd := range []string{"do-approve approve", "drc"} {
+					if dev == "PAN-OS" && (thorough || cmd == "drc" || what == "url") {
+						run(&runCase{Dev: dev, Cmd: cmd, FaultAt: 99, Fault: "quote:" + what + ":" + how, Variant: wi})
+					}
+				}
+			}
+		}
+	}
 	run(&runCase{Dev: "NSX", Cmd: "drc", FaultAt: 0, Fault: "timeout"})
 	run(&runCase{Dev: "PAN-OS", Cmd: "do-approve compare", FaultAt: 0, Fault: "timeout"})
 	// the keygen answer spells the key element in every form encoding/xml accepts
@@ -1704,16 +1933,18 @@ func (e *c17Env) wholeRuns() {
 	// a user name with a control character: the commit URL is rejected by net/url ("parse" error)
 	run(&runCase{Dev: "PAN-OS", Cmd: "do-approve approve", FaultAt: -1, User: "ad\x01min"})
 	// password typed at a terminal (may contain blanks)
-	for _, dev := range []string{"PAN-OS", "NSX", "ASA"} {
+	for _, dev := range []string{"PAN-OS", "NSX", "ASA", "IOS", "Linux"} {
 		c := &runCase{Dev: dev, Cmd: "drc -u", FaultAt: -1, Variant: 1}
 		e.genRunSecrets(rng, c)
 		c.Pass = genSecret(rng, 1) + " " + genCore(rng, 5)
 		cases = append(cases, c)
 	}
 	// malformed credentials files
-	for _, cred := range []string{"4fields", "nomatch", "badpattern"} {
-		for _, dev := range []string{"PAN-OS", "ASA"} {
-			run(&runCase{Dev: dev, Cmd: "do-approve approve", FaultAt: -1, Cred: cred})
+	for ci, cred := range []string{"4fields", "nomatch", "badpattern", "2fields", "blankpass", "multi", "badlater", "missing"} {
+		for di, dev := range []string{"PAN-OS", "ASA", "NSX", "IOS", "Linux"} {
+			if thorough || di < 2 || (ci+di)%3 == 0 {
+				run(&runCase{Dev: dev, Cmd: []string{"do-approve approve", "drc", "do-approve compare", "drc -C"}[(ci+di)%4], FaultAt: -1, Cred: cred})
+			}
 		}
 	}
 	// SSH devices
@@ -1739,6 +1970,21 @@ func (e *c17Env) wholeRuns() {
 				if thorough && (pos < 6 || pos%3 == 0) || !thorough && pos == 1 && ci == di && di < 2 {
 					run(&runCase{Dev: dev, Cmd: cmd, FaultAt: pos, Fault: "silence", Variant: 1})
 				}
+				// error messages that quote raw device output: the device echoes what it received (also the
+				// password) and hangs; echoes something else than the command; answers without a prompt
+				for fi, f := range []string{"echohang", "garble", "noprompt"} {
+					if thorough || (pos+fi+ci+di)%6 == 0 || pos < 3 && ci == di && f == "echohang" {
+						run(&runCase{Dev: dev, Cmd: cmd, FaultAt: pos, Fault: f, Variant: 1})
+					}
+				}
+				if dev == "IOS" && pos < 2 && (cmd == "do-approve approve" || cmd == "drc") {
+					// IOS, reload scheduled: the reload banner is all that precedes the prompt, and the next
+					// prompt is not the router's (console.StripStdPrompt quotes what came)
+					run(&runCase{Dev: dev, Cmd: cmd, FaultAt: pos, Fault: "banner", Variant: 1})
+				}
+			}
+			if thorough || ci == di {
+				run(&runCase{Dev: dev, Cmd: cmd, FaultAt: 0, Fault: "nologin", Variant: 1})
 			}
 		}
 	}
